@@ -315,10 +315,10 @@ CONTRACTS += [
 #                       delivered to the write gate on RED (so data and enable never meet on one wire)
 #   a folded cell       its self-feedback signal on RED
 #   bundle OP signal    the scalar operand is delivered on GREEN (so `each`, reading red, does not iterate over it)
-#   (each CMP signal)   the scalar on GREEN
+#   (each CMP signal)   the scalar on GREEN;  any(b) / all(b) CMP signal: the scalar on GREEN (the wildcard must not range over it)
 #   (c) : bundle        the bundle is delivered on GREEN — from its PHYSICAL producer, and, for a wire-merged bundle, from every member
-# and nothing else is locked.  Evaluated on the REAL method with real plan / graph / module objects over every subset of these five
-# features (32 plans): bounded.
+# and nothing else is locked.  Evaluated on the REAL method with real plan / graph / module objects over every subset of these six
+# features (64 plans): bounded.
 # =================================================================================================
 import itertools as _it2c  # noqa: E402
 
@@ -356,7 +356,7 @@ def locked_colors_arg_sets():
             self.signal_usage = usage
 
     out = []
-    feats = ("cell", "folded", "bundle_arith", "bundle_filter", "bundle_gate")
+    feats = ("cell", "folded", "bundle_arith", "bundle_filter", "bundle_gate", "wildcard_cmp")
     for mask in _it2c.product((False, True), repeat=len(feats)):
         on = {f for f, m in zip(feats, mask) if m}
         plan, g, usage, expected, modules, junctions = LayoutPlan(), SignalGraph(), {}, {}, {}, {}
@@ -387,6 +387,9 @@ def locked_colors_arg_sets():
         if "bundle_filter" in on:
             place("each_cmp", "decider-combinator", needs_wire_separation=True, left_operand="signal-each", right_operand="signal-T", right_operand_signal_id=SignalRef("signal-T", "tsrc"))
             expected[("tsrc", "signal-T")] = "green"
+        if "wildcard_cmp" in on:
+            place("all_cmp", "decider-combinator", needs_wire_separation=True, left_operand="signal-everything", right_operand="signal-U", right_operand_signal_id=SignalRef("signal-U", "usrc"))
+            expected[("usrc", "signal-U")] = "green"
         if "bundle_gate" in on:
             place("gate", "decider-combinator", needs_wire_separation=True, left_operand="signal-G", right_operand=0,
                   output_value_signal_id=BundleRef({"signal-A"}, "merged_bundle"))
